@@ -171,7 +171,9 @@ def judge(ctx, case):
         obj = TRANSFORMS["poly"]()
         try:
             with core.Guard():
-                p = np.asarray(obj(x, d, raw=True) if case["raw"] else obj(x, d), dtype=float)
+                # the vector arrives as a numpy array or as a pandas Series (a data column), `raw` by name or by position
+                xin = pd.Series(x) if len(case["later"]) % 2 else x
+                p = np.asarray((obj(xin, d, True) if len(case["later"]) % 3 == 0 else obj(xin, d, raw=True)) if case["raw"] else obj(xin, d), dtype=float)
         except Exception as e:  # pylint: disable=broad-except
             ctx.fail("poly", case, f"poly(x, {d}, raw={case['raw']}) raised {type(e).__name__}: {e}", core.exc_key(e))
             return
@@ -276,6 +278,14 @@ def judge(ctx, case):
             with core.Guard():
                 obj(x, **kw)
         except ValueError:
+            # refused; the same object asked again refuses again (a refusal leaves nothing behind)
+            try:
+                with core.Guard():
+                    obj(x, **kw)
+            except Exception:  # pylint: disable=broad-except
+                return
+            ctx.fail("bs_invalid", dict(case, kwargs={k: str(v) for k, v in kw.items()}), f"bs(x, {kw}) is refused the first time and accepted when the same object is "
+                     "called again", inv + ":second_call")
             return
         except Exception as e:  # pylint: disable=broad-except
             ctx.fail("bs_invalid", dict(case, kwargs=kw), f"bs(x, {kw}) raised {type(e).__name__} instead of ValueError: {e}", inv + ":" + type(e).__name__)
